@@ -298,7 +298,7 @@ class R1(object):
                     finally:
                         self.sv[ck] = old
                 else:
-                    if ck in ("N", "Xp", "Xr"):
+                    if ck in ("N", "Xp", "Xr", "Xq"):
                         self.unsupported = ck
                     self.block(tc, st[3], rec, made)
             elif op == "sync":
